@@ -15,7 +15,7 @@ func runAttrs(c *Ctx, ev *Evidence, which string) ([]Violation, error) {
 	timeout, grace := unitTimeouts(c)
 	maxAttrs, entries := 2, 1
 	if c.Tier == "thorough" {
-		maxAttrs, entries = 3, 2
+		maxAttrs, entries = 3, 1 // (3, 2) needs more than 60 GB for the path set
 	}
 	ev.Func("(*Policy).sanitizeAttrs [attribute filter: data attributes, element rules, global rules]", "isDataAttribute", "(*Policy).matchRegex", "linkable")
 	ev.Bound("attributes_per_tag", maxAttrs)
